@@ -188,6 +188,11 @@ class Exec:
                 with open(self.path, "w", encoding="utf-8", newline="") as fh:
                     fh.write(self.client)
                 self.srv.did_save(self.path)
+            elif what == "reopen-dirty":
+                # the editor closes the document and opens it again with its unsaved buffer (hot exit / restored session):
+                # the text of didOpen is the document, whatever the file on disk says
+                self.srv.did_close(self.path)
+                self.srv.did_open(self.path, text=self.client)
             else:
                 self.srv.did_close(self.path)
                 self.srv.did_open(self.path)
@@ -361,7 +366,7 @@ def make_machine(ctx):
             self._step(changes)
 
         @precondition(lambda self: self.ex is not None and self.ex.mode != "L0")
-        @rule(what=st.sampled_from(["save", "reopen"]))
+        @rule(what=st.sampled_from(["save", "reopen", "reopen-dirty"]))
         def sync(self, what):
             if ctx.machine_expired():
                 return
